@@ -12,7 +12,7 @@ VERIF = os.path.dirname(os.path.dirname(os.path.abspath(__file__)))
 REPO = os.environ.get("VERIF_REPO", "/repo")
 CACHE = os.path.join(VERIF, ".cache")
 SPEC = os.path.join(VERIF, "spec")
-EVIDENCE = os.path.join(VERIF, "evidence")
+EVIDENCE = os.environ.get("VERIF_EVIDENCE", os.path.join(VERIF, "evidence"))
 REPLAYS = os.path.join(EVIDENCE, "replays")
 SHIM_SRC = os.path.join(VERIF, "shim", "fsshim.c")
 SHIM_SO = os.path.join(CACHE, "fsshim.so")
